@@ -46,6 +46,81 @@ def WiringComplete : Bool :=
   entriesCovered && switchTotal threadSafeOn && switchTotal defaultOn && switchTotal turnOff &&
   locksFirstAll && sameOperations && noUnlockedFunctionInstalled
 
+/-! ## the pointer table as state: switches, save / restore
+
+`saveAndDisableNewDeleteOverloads` / `restoreNewDeleteOverloads` (also run once inside the first
+`getGlobalDetector()` call) copy the pointers to the `saved_*` variables and back; the copy lists
+are REGENERATED (`saveCopies`, `restoreCopies`, `savedInit`).  Statements are executed in source
+order on an environment variable ↦ function name. -/
+
+abbrev Env := List (String × String)
+
+def Env.get (e : Env) (k : String) : String := ((e.find? (·.1 == k)).map (·.2)).getD "?"
+
+/-- assignment to a declared variable (an undeclared one is caught by `copiesWellFormed`) -/
+def Env.set (e : Env) (k v : String) : Env := e.map (fun p => if p.1 == k then (p.1, v) else p)
+
+/-- `dst = src;` for variables -/
+def copyAll (cs : List (String × String)) (e : Env) : Env := cs.foldl (fun e c => e.set c.1 (e.get c.2)) e
+
+/-- `ptr = function;` -/
+def assignAll (as : List (String × String)) (e : Env) : Env := as.foldl (fun e a => e.set a.1 a.2) e
+
+structure Ptrs where
+  vars    : Env          -- the pointers and their saved_* copies
+  counter : Int          -- save_counter
+deriving DecidableEq, Repr
+
+/-- process start: the static initialisers -/
+def Ptrs.initial : Ptrs := { vars := fptrs ++ savedInit, counter := 0 }
+
+def Ptrs.threadSafeOn (p : Ptrs) : Ptrs := { p with vars := assignAll Gen.ThreadSafe.threadSafeOn p.vars }
+def Ptrs.defaultOn (p : Ptrs) : Ptrs := { p with vars := assignAll Gen.ThreadSafe.defaultOn p.vars }
+def Ptrs.turnOff (p : Ptrs) : Ptrs := { p with vars := assignAll Gen.ThreadSafe.turnOff p.vars }
+
+/-- `saveAndDisableNewDeleteOverloads` -/
+def Ptrs.save (p : Ptrs) : Ptrs :=
+  if p.counter + 1 > 1 then { p with counter := p.counter + 1 }
+  else { vars := assignAll Gen.ThreadSafe.turnOff (copyAll saveCopies p.vars), counter := p.counter + 1 }
+
+/-- `restoreNewDeleteOverloads` -/
+def Ptrs.restore (p : Ptrs) : Ptrs :=
+  if p.counter - 1 > 0 then { p with counter := p.counter - 1 }
+  else { vars := copyAll restoreCopies p.vars, counter := p.counter - 1 }
+
+/-- what the eleven pointers point at -/
+def Ptrs.pointers (p : Ptrs) : List (String × String) := fptrs.map (fun f => (f.1, p.vars.get f.1))
+
+/-- the function an entry point reaches right now -/
+def Ptrs.target (p : Ptrs) (entry : String) : String :=
+  match entries.find? (·.1 == entry) with
+  | some e => p.vars.get e.2
+  | none => "?"
+
+def locksFirstFn (fn : String) : Bool := match funcOf fn with | some f => f.locksFirst | none => false
+
+/-- the function takes the scoped lock somewhere in its body (what the replay model follows: it
+    mirrors the code; that the lock comes FIRST is the obligation `wiring_complete`) -/
+def locksAnywhereFn (fn : String) : Bool := match funcOf fn with | some f => f.locksAnywhere | none => false
+
+/-- every pointer is on a function that takes the scoped lock first -/
+def Ptrs.allLocked (p : Ptrs) : Bool := p.pointers.all (fun q => locksFirstFn q.2)
+
+/-- `areNewDeleteOverloaded()` -/
+def Ptrs.overloaded (p : Ptrs) : Bool :=
+  p.vars.get "operator_new_fptr" == "mem_leak_operator_new" ||
+  p.vars.get "operator_new_fptr" == "threadsafe_mem_leak_operator_new"
+
+/-- every variable the copy lists mention is declared, each saved variable belongs to one pointer -/
+def copiesWellFormed : Bool :=
+  (saveCopies ++ restoreCopies).all (fun c => Ptrs.initial.vars.any (·.1 == c.1) && Ptrs.initial.vars.any (·.1 == c.2)) &&
+  savedInit.length == fptrs.length
+
+/-- the three explicit configurations -/
+def threadSafeConfig : Ptrs := Ptrs.initial.threadSafeOn
+def defaultConfig : Ptrs := Ptrs.initial.defaultOn
+def offConfig : Ptrs := Ptrs.initial.turnOff
+
 /-- the number of function pointers / entry points the obligation was checked for -/
 def wiringSize : Nat × Nat := (fptrs.length, entries.length)
 
